@@ -230,6 +230,15 @@ class BosonicBackend(BaseBosonic):
                         "Symbolic non-Gaussian preparations have not been implemented "
                         "in the bosonic backend."
                     )
+                # If new modes are added in the program context, add them here, once per
+                # command, as vacuum; a later non-Gaussian preparation can overwrite them
+                if isinstance(cmd.op, _New_modes):
+                    cmd.op.apply(cmd.reg, self)
+                    for _ in cmd.reg:
+                        init_weights.append(np.array([1], dtype=complex))
+                        init_means.append(vac_means)
+                        init_covs.append(vac_covs)
+                    continue
                 for reg in new_labels:
                     # All the possible preparations should go in this loop
                     if isinstance(cmd.op, Bosonic):
@@ -248,13 +257,6 @@ class BosonicBackend(BaseBosonic):
                         raise NotImplementedError(
                             "Ket and DensityMatrix preparation not implemented in the bosonic backend."
                         )
-
-                    # If a new mode is added in the program context, then add it here
-                    elif isinstance(cmd.op, _New_modes):
-                        cmd.op.apply(cmd.reg, self)
-                        init_weights.append([0])
-                        init_means.append([0])
-                        init_covs.append([0])
 
                     # The rest of the preparations are gaussian.
                     # TODO: initialize with Gaussian |vacuum> state
